@@ -1152,6 +1152,19 @@ func (m *cacheModel) checkKeySites() {
 		}
 	}
 	_ = n
+	// GetObject(obj) = Get(obj.GetNamespace(), obj.GetName())
+	if fn := c.mustFunc("", "_cache.GetObject"); fn != nil {
+		ok := false
+		for _, pa := range pathsOf(c, fn) {
+			for _, e := range pa.Effects {
+				if e.Kind == "call" && e.Fn != nil && fnName(e.Fn) == "_cache.Get" && len(e.Args) == 3 {
+					a, b := e.Args[1], e.Args[2]
+					ok = a.K == "invoke" && a.S == "GetNamespace" && b.K == "invoke" && b.S == "GetName" && sameTerm(a.A[0], b.A[0])
+				}
+			}
+		}
+		c.check(ok, rule, "_cache.GetObject/Get(namespace,name)", c.P.fnPos(fn), "", "GetObject does not look up (obj.GetNamespace(), obj.GetName()) in that order")
+	}
 }
 
 // ---------- single owner (T-CONFINE) ----------
